@@ -73,18 +73,9 @@ func (c *Ctx) bitStorageLayout() bsLayout {
 				if !ok || !isStruct(fa.X.Type()) {
 					continue
 				}
-				// (1 << x) - 1
-				sub, ok := stripConv(s.Val).(*ssa.BinOp)
-				if !ok || sub.Op != token.SUB {
-					continue
-				}
-				if k, ok := constIntVal(sub.Y); !ok || k != 1 {
-					continue
-				}
-				if shl, ok := stripConv(sub.X).(*ssa.BinOp); ok && shl.Op == token.SHL {
-					if k, ok := constIntVal(shl.X); ok && k == 1 {
-						l.mask = st.Field(fa.Field).Name()
-					}
+				// (1 << x) - 1, written out or handed back by a straight-line helper of the package
+				if isMaskExpr(s.Val, 0) {
+					l.mask = st.Field(fa.Field).Name()
 				}
 			}
 		}
@@ -236,7 +227,18 @@ func (c *Ctx) BitStorageGuards() []core.Ob {
 			case *ssa.Call:
 				// a helper of the package that divides by a field of the same storage
 				sc := x.Common().StaticCallee()
-				if sc == nil || !inPkgs(sc, "level") || len(x.Common().Args) == 0 || x.Common().Args[0] != ssa.Value(recv) {
+				if sc == nil || !inPkgs(sc, "level") || len(x.Common().Args) == 0 {
+					return
+				}
+				if x.Common().Args[0] != ssa.Value(recv) {
+					// a plain function that is handed fields of the storage and divides by one of them: cellOf(n, b.perLong, b.bits)
+					for _, pi := range paramDivisors(core.Origin(sc), 0) {
+						if pi < len(x.Common().Args) {
+							if f := rootFieldOfAddr(loadAddr(stripConv(x.Common().Args[pi])), recv); f != "" {
+								checkNZ(f, x.Pos(), locAV, "the call of "+sc.Name()+" (which divides by the argument it is given)")
+							}
+						}
+					}
 					return
 				}
 				eff := helperEffects(core.Origin(sc), lay.data, 0)
@@ -531,4 +533,71 @@ func loadAddr(v ssa.Value) ssa.Value {
 		return u.X
 	}
 	return v
+}
+
+// isMaskExpr: v is (1 << x) - 1, or the result of a one-block function of the module that returns that.
+func isMaskExpr(v ssa.Value, depth int) bool {
+	v = stripConv(v)
+	if call, ok := v.(*ssa.Call); ok && depth < 2 {
+		if g := call.Call.StaticCallee(); g != nil && len(g.Blocks) == 1 && core.FnPkg(g) != nil {
+			if ret, ok := g.Blocks[0].Instrs[len(g.Blocks[0].Instrs)-1].(*ssa.Return); ok && len(ret.Results) == 1 {
+				return isMaskExpr(ret.Results[0], depth+1)
+			}
+		}
+		return false
+	}
+	sub, ok := v.(*ssa.BinOp)
+	if !ok || sub.Op != token.SUB {
+		return false
+	}
+	if k, ok := constIntVal(sub.Y); !ok || k != 1 {
+		return false
+	}
+	if shl, ok := stripConv(sub.X).(*ssa.BinOp); ok && shl.Op == token.SHL {
+		if k, ok := constIntVal(stripConv(shl.X)); ok && k == 1 {
+			return true
+		}
+	}
+	return false
+}
+
+// paramDivisors: the indices of the parameters of fn that fn (or a function it hands them on to)
+// divides by.
+func paramDivisors(fn *ssa.Function, depth int) []int {
+	var out []int
+	if depth > 1 {
+		return nil
+	}
+	idx := func(v ssa.Value) int {
+		v = stripConv(v)
+		for i, p := range fn.Params {
+			if v == ssa.Value(p) {
+				return i
+			}
+		}
+		return -1
+	}
+	for _, b := range fn.Blocks {
+		for _, in := range b.Instrs {
+			switch x := in.(type) {
+			case *ssa.BinOp:
+				if x.Op == token.QUO || x.Op == token.REM {
+					if i := idx(x.Y); i >= 0 {
+						out = append(out, i)
+					}
+				}
+			case *ssa.Call:
+				if g := x.Call.StaticCallee(); g != nil && core.Origin(g) != fn && len(g.Blocks) > 0 {
+					for _, gi := range paramDivisors(core.Origin(g), depth+1) {
+						if gi < len(x.Call.Args) {
+							if i := idx(x.Call.Args[gi]); i >= 0 {
+								out = append(out, i)
+							}
+						}
+					}
+				}
+			}
+		}
+	}
+	return out
 }
